@@ -20,7 +20,7 @@ import (
 // ---- C07: requests run in the client's current keyspace, protocol version and compression ----
 
 type c07Action struct {
-	Op      string `json:"op"` // use | data | parallel_use | reconnect | backend_loss
+	Op      string `json:"op"`             // use | data | parallel_use | reconnect | backend_loss
 	Host    int    `json:"host,omitempty"` // backend_loss: the host whose connections are dropped
 	Client  int    `json:"client"`
 	Use     string `json:"use,omitempty"`     // keyspace as spelled by the client
